@@ -52,9 +52,10 @@ class Mod:
     """One module under construction."""
 
     def __init__(self, rng: random.Random, modname: str, relbase: str, avoid: frozenset[str], future: bool,
-                 profile: str = "full"):
+                 profile: str = "full", features: list[str] | None = None):
         self.rng = rng
         self.profile = profile          # "full" | "inspect" (the constructs --inspect-mode handles)
+        self.features_override = features
         self.modname = modname
         self.relbase = relbase          # "." or ".." — how to reach the package that holds base.py
         self.avoid = avoid
@@ -699,6 +700,35 @@ class Mod:
             self.force_all = True
         self.public.append(n)
 
+    def f_aliased(self) -> None:
+        """Aliased imports whose alias is public: in __all__, used in annotations, or both."""
+        r = self.rng
+        rb = self.relbase
+        k = r.choice(["from_all", "from_all", "module_all", "import_as", "import_as_all", "from_ann"])
+        n = self.fresh("ali")
+        if k == "from_all":
+            a = self.fresh("Root")
+            self.emit(f"from {rb}base import Base as {a}", f"def {n}(b: {a}) -> {a}:", "    return b")
+            self.public.append(a)
+            self.force_all = True
+        elif k == "module_all":
+            a = self.fresh("backend")
+            self.emit(f"from {rb} import base as {a}", f"def {n}(b: {a}.Base, k: int = 0) -> {a}.Base:", "    return b")
+            self.public.append(a)
+            self.force_all = True
+        elif k == "import_as":
+            a = self.fresh("cabc")
+            self.emit(f"import collections.abc as {a}", f"def {n}(xs: {a}.Sequence[int]) -> {a}.Iterator[int]:", "    return iter(xs)")
+        elif k == "import_as_all":
+            a = self.fresh("osp")
+            self.emit(f"import os.path as {a}", f"def {n}(p: str) -> str:", f"    return {a}.basename(p)")
+            self.public.append(a)
+            self.force_all = True
+        else:
+            a = self.fresh("Mix")
+            self.emit(f"from {rb}base import Mixin as {a}", f"def {n}(m: {a} | None = None) -> list[{a}]:", "    return []")
+        self.public.append(n)
+
     def f_decorated(self) -> None:
         d = self.fresh("deco")
         f = self.fresh("decorated")
@@ -715,7 +745,8 @@ class Mod:
     def build(self) -> str:
         r = self.rng
         k = r.randint(3, 7)
-        feats = [r.choice(self.FEATURES if self.profile == "full" else self.INSPECT_FEATURES) for _ in range(k)]
+        pool = self.features_override or (self.FEATURES if self.profile == "full" else self.INSPECT_FEATURES)
+        feats = [r.choice(pool) for _ in range(k)]
         feats = [f for f in feats if f not in self.avoid]
         for f in feats:
             getattr(self, "f_" + f)()
@@ -804,13 +835,20 @@ def helper2(x: int) -> int:
 '''
 
 
+ALIAS_FEATURES = ["aliased", "aliased", "aliased", "relative", "rebind", "functions", "class"]
+ALIAS_INITS = ["from .base import Base as Root\nfrom . import base as backend\n__all__ = ['Root', 'backend']\n",
+               "from .base import helper as assist, Base\n__all__ = ['assist', 'Base']\n",
+               "from .base import Base as Root\n"]
+
+
 def gen_package(rng: random.Random, pkg: str, nmods: int, avoid: frozenset[str] = frozenset(),
-                profile: str = "full") -> tuple[dict[str, str], dict[str, dict]]:
+                profile: str = "full", features: list[str] | None = None,
+                inits: list[str] | None = None) -> tuple[dict[str, str], dict[str, dict]]:
     """files: relative path -> source; meta: dotted module name -> {features, all}."""
     files: dict[str, str] = {}
     meta: dict[str, dict] = {}
-    init = rng.choice(["", "from .base import Base as Base\n", "from . import base\n",
-                       "from .base import Base, helper\n__all__ = ['Base', 'helper']\n"])
+    init = rng.choice(inits or ["", "from .base import Base as Base\n", "from . import base\n",
+                                "from .base import Base, helper\n__all__ = ['Base', 'helper']\n"])
     files[f"{pkg}/__init__.py"] = init
     files[f"{pkg}/base.py"] = BASE_PY if profile == "full" else BASE_INSPECT_PY
     files[f"{pkg}/sub/__init__.py"] = ""
@@ -820,7 +858,7 @@ def gen_package(rng: random.Random, pkg: str, nmods: int, avoid: frozenset[str] 
     for i in range(nmods):
         deep = i == nmods - 1 and nmods > 1
         name = f"{pkg}.sub.deep" if deep else f"{pkg}.m{i}"
-        m = Mod(rng, name, ".." if deep else ".", avoid, future=rng.random() < 0.35, profile=profile)
+        m = Mod(rng, name, ".." if deep else ".", avoid, future=rng.random() < 0.35, profile=profile, features=features)
         src = m.build()
         files[name.replace(".", "/") + ".py"] = src
         meta[name] = {"features": m.features, "all": m.all, "future": m.future, "style": m.style}
